@@ -12,6 +12,8 @@ from . import sim
 NAMES = ["a", "b", "c", "d", "e", "f", "g", "h", "k", "m", "t-1", "x_2", "Z9", "run-all"]
 PKGS = ["", "p", "p/q", "lib", "exp-1", "subtask", "a_task/x", "archive-tmp"]
 STR_VALUES = ["abc", "x.y", "a-b_c", "10k", "path/to", "v1.2.3", "True", "0"]
+# identifiers that only differ in case, or in a character that is a wildcard for SQL LIKE / GLOB / regexes
+CONFUSABLE_NAMES = ["t-1", "t_1", "T_1", "t11", "a", "A", "x_2", "x-2", "X_2", "a_", "ab"]
 ODD_STR_VALUES = ["caf\u00e9", "\u65e5\u672c", "na\u00efve-\u00fc", "\udc80x", "a\udcffb"]   # non-ASCII; lone surrogates = raw non-UTF-8 bytes
 
 
@@ -100,8 +102,9 @@ def render_cond(scn, pkg):
     wrapped = scn.get("wrap_pkg") == pkg
     if wrapped:
         lines.append("_orig_exp, _orig_cmd = run_experiment, run_command")
-        lines.append("def run_experiment(**kw):\n    kw.setdefault('parallelizable', True)\n    return _orig_exp(**kw)")
-        lines.append("def run_command(**kw):\n    kw.setdefault('parallelizable', True)\n    return _orig_cmd(**kw)")
+        extra = "    kw.setdefault('options', {'wrapped': 1})\n" if scn.get("wrap_opts") else ""
+        lines.append("def run_experiment(**kw):\n    kw.setdefault('parallelizable', True)\n%s    return _orig_exp(**kw)" % extra)
+        lines.append("def run_command(**kw):\n    kw.setdefault('parallelizable', True)\n%s    return _orig_cmd(**kw)" % extra)
     for t, d in scn["tasks"].items():
         p, name = split_tid(t)
         if p != pkg:
@@ -135,7 +138,7 @@ def render_cond(scn, pkg):
                 parts.append("parallelizable=True")
             if d.get("args"):
                 parts.append("args=%s" % py_lit(d["args"]))
-            if d.get("options"):
+            if d.get("options") and not (wrapped and d.get("wrapdef")):
                 parts.append("options=%s" % py_lit(d["options"]))
             if d["deps"]:
                 parts.append("deps=%s" % deps)
@@ -258,11 +261,14 @@ def gen_graph(r, n, kinds_w, pkgs, p_par=0.5, p_edge=0.45, shape=None):
     tasks = {}
     ids = []
     used = set()
+    # (decided from the generator state without drawing, so that the other scenarios stay as they were)
+    st = r.getstate()[1]
+    pool = CONFUSABLE_NAMES if (st[0] ^ st[-1] ^ st[7]) % 9 == 0 else NAMES
     shape = shape or r.choice(["random", "random", "diamond", "chain", "fan", "layers"])
     for i in range(n):
         pkg = r.choice(pkgs)
         for _ in range(50):
-            name = r.choice(NAMES)
+            name = r.choice(pool)
             if (pkg, name) not in used:
                 break
         else:
